@@ -395,11 +395,14 @@ func H_C16_extensionLists() {
 	li := ndChoice("list", len(lists))
 	exts := lists[li]
 	all := []string{"", ".jet", ".a", ".b"}
+	// the requested name may itself end in a configured extension: its candidates are
+	// still the name plus each configured extension ("/t.jet.jet" included)
+	req := []string{"/t", "/t.jet", "/t.a"}[ndChoice("req", 3)]
 	l := &c16Loader{exists: map[string]bool{}, openFail: map[string]bool{}, content: map[string]string{}}
 	for _, e := range all {
 		if ndBool("has" + e) {
-			l.exists["/t"+e] = true
-			l.content["/t"+e] = "C" + e
+			l.exists[req+e] = true
+			l.content[req+e] = "C" + e
 		}
 	}
 	opts := []Option{}
@@ -410,7 +413,7 @@ func H_C16_extensionLists() {
 	want := ""
 	found := false
 	for _, e := range exts {
-		if l.exists["/t"+e] {
+		if l.exists[req+e] {
 			want, found = "C"+e, true
 			break
 		}
@@ -422,7 +425,7 @@ func H_C16_extensionLists() {
 		}
 		return b.String()
 	}
-	t1, err1 := set.GetTemplate("/t")
+	t1, err1 := set.GetTemplate(req)
 	if !found {
 		vfReach("notfound")
 		vfAssert(err1 != nil, "no configured candidate exists: not found")
@@ -431,7 +434,7 @@ func H_C16_extensionLists() {
 	vfReach("loaded")
 	vfAssert(err1 == nil && render(t1) == want, "candidate extensions are tried strictly in the configured order and the first existing file wins")
 	l.calls = nil
-	t2, err2 := set.GetTemplate("/t")
+	t2, err2 := set.GetTemplate(req)
 	vfAssert(err2 == nil && t2 == t1, "asking again for the same name returns the identical template")
 	vfAssert(len(l.calls) == 0, "... without touching the loader")
 }
@@ -518,4 +521,56 @@ func H_C16_includeHistory() {
 	}
 	vfNote(second)
 	vfAssert(second == want, "failed lookups are retried; development mode re-reads the loader; production mode serves what it remembered")
+}
+
+// H_C16_nestedLoads: the file found for the requested name extends or imports a template
+// whose path is another candidate of the same request ("/page" -> /page.jet, which extends
+// /page.jet.html; or imports /page.html.jet), so the nested load puts that other candidate
+// into the cache while the request is still being served: the request still yields the
+// first existing candidate in extension order, is remembered under the requested name, and
+// asking again returns the identical template.
+//
+//gosym:reach loaded
+func H_C16_nestedLoads() {
+	kw := ndChoice("kw", 3)
+	target := []string{"/page.jet.html", "/page.html.jet"}[ndChoice("target", 2)]
+	rel := ndBool("relative")
+	ref := target
+	if rel {
+		ref = target[1:]
+	}
+	var page, want string
+	switch kw {
+	case 0:
+		page, want = `{{ extends "`+ref+`" }}{{ block body() }}PAGE{{ end }}`, "<html>PAGE</html>"
+	case 1:
+		page, want = `{{ import "`+ref+`" }}page:{{ yield body() }}`, "page:LAYOUT"
+	default:
+		page, want = `page:{{ include "`+ref+`" }}`, "page:<html>LAYOUT</html>"
+	}
+	l := &c16Loader{exists: map[string]bool{"/page.jet": true, target: true}, openFail: map[string]bool{},
+		content: map[string]string{"/page.jet": page, target: `<html>{{ block body() }}LAYOUT{{ end }}</html>`}}
+	c := &c16Cache{m: map[string]*Template{}}
+	set := NewSet(l, WithCache(c))
+	render := func(t *Template) string {
+		var b bytes.Buffer
+		if t == nil || t.Execute(&b, nil, nil) != nil {
+			return "<err>"
+		}
+		return b.String()
+	}
+	t1, err1 := set.GetTemplate("/page")
+	vfReach("loaded")
+	vfAssert(err1 == nil && t1 != nil, "loads")
+	if err1 != nil || t1 == nil {
+		return
+	}
+	vfNote(t1.Name)
+	vfAssert(t1.Name == "/page.jet" && render(t1) == want, "the first existing candidate in extension order is the one returned")
+	vfAssert(c.m["/page"] == t1, "and remembered under the requested name")
+	l.calls = nil
+	t2, err2 := set.GetTemplate("/page")
+	vfAssert(err2 == nil && t2 == t1 && len(l.calls) == 0, "asking again returns the identical template without touching the loader")
+	t3, err3 := set.GetTemplate(target)
+	vfAssert(err3 == nil && t3 != nil && t3.Name == target, "the other candidate is still reachable under its own name")
 }
